@@ -61,7 +61,7 @@ func main() {
 			readdirSweep(root)
 		}
 	}()
-	go func() { defer wg.Done(); histories(root, selfNoop) }()
+	go func() { defer wg.Done(); histories(root, selfNoop); openGrid(root, selfNoop) }()
 	wg.Wait()
 	rep.Write(orc)
 }
